@@ -71,22 +71,40 @@ pub fn work_bytes() -> u64 {
 
 /// RAII guard used inside the simulator's seams (reader scripts, logs): what
 /// the harness allocates while the library is calling into a seam is not the
-/// library's work.
+/// library's work.  Guards nest (a reader may run a nested library call that
+/// has readers of its own): only the outermost one accounts.
 pub struct Exclude {
     b0: u64,
+    outermost: bool,
+}
+
+thread_local! {
+    static DEPTH: Cell<u32> = const { Cell::new(0) };
 }
 
 impl Exclude {
     #[inline]
     pub fn new() -> Exclude {
-        Exclude { b0: bytes() }
+        let d = DEPTH.try_with(|d| {
+            let v = d.get();
+            d.set(v + 1);
+            v
+        })
+        .unwrap_or(1);
+        Exclude {
+            b0: bytes(),
+            outermost: d == 0,
+        }
     }
 }
 
 impl Drop for Exclude {
     #[inline]
     fn drop(&mut self) {
-        let d = bytes().wrapping_sub(self.b0);
-        let _ = EXCLUDED.try_with(|e| e.set(e.get().wrapping_add(d)));
+        let _ = DEPTH.try_with(|d| d.set(d.get().saturating_sub(1)));
+        if self.outermost {
+            let delta = bytes().wrapping_sub(self.b0);
+            let _ = EXCLUDED.try_with(|e| e.set(e.get().wrapping_add(delta)));
+        }
     }
 }
